@@ -39,7 +39,7 @@ CFG = {
     "rule": "fixed corpus (lengths 0,1,2,3 for every type and tolerance, TestSimplify's curves, closing-segment witness, collinear/duplicate/"
             "negative-tolerance cases) + generated integer-grid random walks, self-avoiding lattice walks, simple lines in general position "
             "(rejection-sampled with exact integer predicates), spirals, combs, star-shaped rings with holes, multi-geometries with empty and "
-            "short members; smooth long runs (arcs, parabolas, flat waves: one output segment replaces 65-500 vertices), size thresholds (63..130, 1023..2049 vertices; 64/65/128/129 members), the same shapes at scales 2^-30..2^30; every input laid out in one flat buffer with spare capacity, first answer re-read after a second call on the operand changed in place; lengths 0..3000; tol from {0,1/4,1/2,1.5,3.5,1e6} and a few others. distinct = distinct input line; non-trivial = "
+            "short members; smooth long runs (arcs, parabolas, flat waves: one output segment replaces 65-500 vertices), size thresholds (63..130, 1023..2049 vertices; 64/65/128/129 members), the same shapes at scales 2^-30..2^30; every input laid out in one flat buffer with spare capacity, first answer re-read after a second call on the operand changed in place; shallow pockets on a ladder of small absolute scales (2^-8..2^-40, 1e-3..1e-7, with/without a lon/lat offset); densified simple lines (collinear runs in order); concurrent callers (class conc: 8 identical + 8 unrelated goroutines, multi-geometries with 32..80 members); lengths 0..3000; tol from {0,1/4,1/2,1.5,3.5,1e6} and a few others. distinct = distinct input line; non-trivial = "
             "class is not skipped/neartie",
     "trivial_class": r"^(skipped.*|.*-neartie|.*-outofrange)$",
     "timeout": {"quick": 900, "thorough": 3000},
@@ -86,10 +86,21 @@ def pregen(check):
 CFG["pregen"] = pregen
 
 
+NEARTIE_BOUND = 0.02
+
+
 def post(check, pairs, stats):
-    """name the tie lemma(s) that no longer prove when lake build of Ties.lean failed"""
+    """(1) bound on the float near-tie class: cases in it are judged by the Spec with slack but NOT compared with the
+    model, so the class must stay small (it is empty on the unchanged tree: integer grids and dyadic tolerances);
+    (2) name the tie lemma(s) that no longer prove when lake build of Ties.lean failed"""
     import os, re
     import vcheck
+    cl = stats.get("classes", {}) or {}
+    tot = sum(cl.values())
+    nt = sum(v for k, v in cl.items() if k.endswith("-neartie"))
+    if tot and nt > NEARTIE_BOUND * tot:
+        check.broken.append("near-tie class holds %d of %d cases (bound %.0f%%): too many cases escape the model comparison"
+                            % (nt, tot, 100 * NEARTIE_BOUND))
     log = getattr(check, "lake_log", "")
     if "Ties.lean" not in log:
         return
